@@ -106,30 +106,30 @@ fn main() {
     // (mode, quick cases, thorough cases)
     let mut plan: Vec<(&str, u64, u64)> = vec![];
     if want(&["C01", "C02", "C03", "C09"]) {
-        plan.push(("hist", 300, 12_000));
+        plan.push(("hist", 1000, 20_000));
         plan.push(("large", 6, 60));
     }
     if want(&["C05"]) {
-        plan.push(("pf", 400, 10_000));
+        plan.push(("pf", 1000, 20_000));
     }
     if want(&["C04", "C07", "C19", "C01"]) {
-        plan.push(("lazy", 200, 6_000));
+        plan.push(("lazy", 400, 8_000));
     }
     if want(&["C06"]) {
-        plan.push(("reject", 400, 10_000));
+        plan.push(("reject", 1500, 30_000));
     }
     if want(&["C08"]) {
-        plan.push(("iso", 400, 10_000));
+        plan.push(("iso", 1500, 30_000));
     }
     if want(&["C10"]) {
-        plan.push(("init", 200, 3_000));
+        plan.push(("init", 700, 7_000));
     }
     if want(&["C11"]) {
         plan.push(("lookup", 120, 2_000));
         plan.push(("lookup_long", 6, 60));
     }
     if want(&["C20"]) {
-        plan.push(("peer", 200, 5_000));
+        plan.push(("peer", 1000, 20_000));
     }
     for (mode, q, t) in plan {
         let n = args.n(q, t);
